@@ -409,6 +409,7 @@ def build() -> Check:
             "time (including calls with an out-of-range window in between, whose own outcome is not judged); non-trivial = a window computed "
             "after the buffer was mutated. zero-register-boundaries: windows of 256 B .. 192 KiB constructed so that the running register "
             "is exactly 0x0000 after every 2^k octets (k = 8..16)."
+            ' first-operation: one fresh interpreter per case; every ordered pair (and single) of {static compute_checksum, object update/checksum, is_good, HdlcFrame check, reader} as the first FCS operations of the process x 5 data values, compared with the reference.'
         ),
         assumptions=[
             "The reference is the bit-serial RFC 1662 algorithm in vlib/ref_fcs.py (no table).",
